@@ -102,7 +102,7 @@ func SM3(msg []byte) []byte {
 type sm3Hash struct{ buf []byte }
 
 // NewSM3 returns a reference hash.Hash (buffers the whole message; obviously correct).
-func NewSM3() hash.Hash                       { return &sm3Hash{} }
+func NewSM3() hash.Hash                        { return &sm3Hash{} }
 func (h *sm3Hash) Write(p []byte) (int, error) { h.buf = append(h.buf, p...); return len(p), nil }
 func (h *sm3Hash) Sum(b []byte) []byte         { return append(b, SM3(h.buf)...) }
 func (h *sm3Hash) Reset()                      { h.buf = h.buf[:0] }
